@@ -228,3 +228,82 @@ Print Assumptions C04_unpickled_still_refuses.
 Eval vm_compute in (map (fun k => length (unguarded_mutators k)) wrapper_kinds).
 Eval vm_compute in (map (fun k => length (raw_accessors k)) wrapper_kinds).
 Eval vm_compute in (delitem_guarded, unpickle_keeps_instantiated, nested_wrapper_bound, field_get_honours_field_flag).
+
+(* ==== the CLASS OPTIONS Structure.__setattr__ branches on (harness/c04opts.py explores them on the implementation) ====
+   The instance state has two components: the attributes and the explicit-None markers (`_none_fields`, visible in
+   str / hash / == / the serialization under _enable_undefined_value): Struct/NoneFields.v.  The effect list of one
+   assignment is translated from the source on every run (Gen/StructNoneFields.v). *)
+From TP Require Import Struct.NoneFields Struct.NoneFieldsProofs Struct.ImmutableOptions Struct.ImmutableOptionsProofs
+  Gen.StructNoneFields.
+
+(* what the source says NOW: an instantiated instance of an immutable class refuses every assignment and BOTH state
+   components stay as they were — for every class description (any _ignore_none, _additional_properties, _required),
+   with or without _enable_undefined_value, every ordinary key and every value (None included) *)
+Theorem C04_src_setattr_immutable_options : forall re_match e c u st n v,
+    c_immutable c = true -> ordinary_name n = true ->
+    run_decision re_match e c true st n (Structure__setattr_nf (undef_heap c u true) (PStr n) v)
+    = (st, Instance.Raised ValueError).
+Proof. exact generated_immutable_options. Qed.
+
+(* every finite history of assignments on such an instance leaves the state as it was, and every step raises *)
+Theorem C04_options_history : forall re_match e c u ops st,
+    c_immutable c = true ->
+    run_sets re_match e c u st ops = st /\ all_raise re_match e c u st ops = true.
+Proof. exact immutable_history. Qed.
+
+(* a field declared immutable, holding a value, inside ANY class: an assignment to it leaves both components as they
+   were, except on the one path where __setattr__ returns before Field.__set__ is reached *)
+Theorem C04_immutable_field_assignment : forall re_match e c u inst st n v fd,
+    find_field (c_fields c) n = Some fd -> fd_immutable fd = true -> alist_has (u_attrs st) n = true ->
+    none_marker_path c u n v = false ->
+    fst (setattr_u re_match e c u inst st n v) = st.
+Proof. exact immutable_field_setattr. Qed.
+
+(* ... and so does every finite history of assignments to any keys that avoids that path *)
+Theorem C04_immutable_field_history : forall re_match e c u fd n ops st,
+    find_field (c_fields c) n = Some fd -> fd_immutable fd = true -> alist_has (u_attrs st) n = true ->
+    avoids_marker_path c u n ops = true ->
+    field_view (run_sets re_match e c u st ops) n = field_view st n.
+Proof. exact immutable_field_history. Qed.
+
+(* the hole (finding F23): on that path the marker IS added, whatever the field's immutability *)
+Theorem C04_none_marker_path_changes : forall re_match e c u inst st n v,
+    (c_immutable c && inst) = false -> none_marker_path c u n v = true -> str_in n (u_none st) = false ->
+    setattr_u re_match e c u inst st n v = ({| u_attrs := u_attrs st; u_none := n :: u_none st |}, Instance.Done).
+Proof. exact none_marker_path_changes. Qed.
+
+Definition C04_immutable_field_statement : Prop :=
+  forall re_match e c u fd n ops st,
+    find_field (c_fields c) n = Some fd -> fd_immutable fd = true -> alist_has (u_attrs st) n = true ->
+    field_view (run_sets re_match e c u st ops) n = field_view st n.
+
+Definition ex_opt_class := opt_class false true false true false.   (* mutable class, immutable optional field f *)
+Definition ex_opt_state : ustate := {| u_attrs := [(s2p "f", PNum (NInt 3))]; u_none := [] |}.
+
+Theorem C04_immutable_field_statement_refuted : ~ C04_immutable_field_statement.
+Proof.
+  intros H.
+  specialize (H (fun _ _ => true) [] ex_opt_class true
+                {| fd_name := s2p "f"; fd_field := opt_int; fd_immutable := true; fd_default := None |}
+                (s2p "f") [(s2p "f", PNone)] ex_opt_state eq_refl eq_refl eq_refl).
+  vm_compute in H. discriminate H.
+Qed.
+
+(* non-vacuity: the hypotheses of the history theorems hold for non-trivial inputs, and the conclusion is not
+   trivially about an empty state *)
+Example C04_options_nonvacuous :
+  c_immutable (opt_class true false true true false) = true /\
+  avoids_marker_path ex_opt_class true (s2p "f")
+     [(s2p "f", PNum (NInt 4)); (s2p "g", PNone); (s2p "f", PStr (s2p "bad")); (s2p "zz", PNum (NInt 1))] = true /\
+  field_view (run_sets (fun _ _ => true) [] ex_opt_class true ex_opt_state
+     [(s2p "f", PNum (NInt 4)); (s2p "g", PNone); (s2p "f", PStr (s2p "bad")); (s2p "zz", PNum (NInt 1))]) (s2p "f")
+  = (Some (PNum (NInt 3)), false) /\
+  alist_has (u_attrs (run_sets (fun _ _ => true) [] ex_opt_class true ex_opt_state [(s2p "zz", PNum (NInt 1))])) (s2p "zz") = true.
+Proof. vm_compute. repeat split; reflexivity. Qed.
+
+Print Assumptions C04_src_setattr_immutable_options.
+Print Assumptions C04_options_history.
+Print Assumptions C04_immutable_field_assignment.
+Print Assumptions C04_immutable_field_history.
+Print Assumptions C04_none_marker_path_changes.
+Print Assumptions C04_immutable_field_statement_refuted.
